@@ -42,6 +42,18 @@ _reg("C03", "xsim.manager.props", "C03", "exploration", {"quick": 4800, "thoroug
      "one case = seeded world + history biased to register/unregister/replace/load over nested targets; after every op the "
      "subject is compared with a freshly built manager (index supports, verify, queries, reaction to the next op); "
      "distinct = distinct case digest; non-trivial = at least one removal or replacement of a registered task happened")
+_reg("C18", "xsim.manager.props", "C18", "fault_enumeration", {"quick": 1600, "thorough": 60000}, {"quick": 50, "thorough": 250},
+     ("pure", "compiled"), COMPONENTS_MANAGER,
+     "one case = seeded history + up to 3 crash updates; for each, EVERY container write, EVERY container read and EVERY action call "
+     "of the fault-free trace (capped at 24 per kind, evenly spread) is failed once on a re-executed copy, optionally twice in a row, "
+     "then the assignment is repeated fault-free; distinct = distinct case digest; non-trivial = at least one fault was injected "
+     "(the count of faulted executions is in probes.faulted_executions)")
+_reg("C17", "xsim.manager.props", "C17", "fault_enumeration", {"quick": 1280, "thorough": 40000}, {"quick": 40, "thorough": 200},
+     ("pure", "compiled"), COMPONENTS_MANAGER,
+     "one case = seeded history; the manager is frozen at EVERY position of it (each on a re-executed copy) and subjected to ~8 "
+     "generated API calls (assign expression/value, in-place op, register, unregister, load, copy_expr_from, refresh, verify, "
+     "cleanup, clone); then unfrozen and the rest of the history is run; distinct = distinct case digest; non-trivial = at least "
+     "one mutating call was made on a frozen manager (count in probes.mutating_calls_on_frozen)")
 
 
 def driver_for(prop):
@@ -89,4 +101,22 @@ MANIFEST_TEXT = {
              "reaction (exception, executed task set, contents) to the next op; refresh()/clone() at random points",
         design_ref="DESIGN.md 5 (C03)", note=_TB,
         technique="deterministic simulation: history refinement against a fresh twin manager"),
+    "C17": dict(
+        text="fault enumeration over freeze points: the manager is frozen at EVERY position of each sampled history (on a "
+             "re-executed copy), then every kind of mutating entry point (assign expression, value over an expression, in-place op "
+             "on a defined location, register, unregister, load, copy_expr_from) must raise ValueError and leave definitions, data, "
+             "index supports and all query answers equal to the snapshot taken before; refresh/verify/cleanup/clone must succeed and "
+             "change nothing; plain-value assignments must still propagate (C01 oracle); after unfreeze the rest of the history "
+             "must match the never-frozen model and a fresh twin",
+        design_ref="DESIGN.md 5 (C17)", note=_TB,
+        technique="deterministic simulation: freeze injected at every history position, atomicity snapshots"),
+    "C18": dict(
+        text="fault enumeration over crash points: for up to 3 updates per sampled history the fault-free event trace W is recorded "
+             "on a re-executed copy, then EVERY container write (incl. the initial one), EVERY container read and EVERY action call "
+             "of W is failed once (InjectedFault), optionally twice in a row; oracle: the injected exception object reaches the "
+             "caller, the executed trace is exactly the prefix of W up to the failure, verify() and index supports stay consistent, "
+             "definitions and queries are unchanged (pure propagation), and a fault-free repeat re-establishes every value "
+             "(linear knobs as their own violation class)",
+        design_ref="DESIGN.md 5 (C18)", note=_TB,
+        technique="deterministic simulation: fault injection at every access of an update, recovery check"),
 }
